@@ -47,7 +47,11 @@ class ReaderCfg(Cfg):
 
     def loop_elem(self, node, iter_term, st):
         if isinstance(node.target, ast.Tuple) and "_parse_event_buffer" in ast.unparse(iter_term):
-            return ast.Tuple([ast.Name(t.id, ast.Load()) for t in node.target.elts if isinstance(t, ast.Name)], ast.Load())
+            # canonical names by position (struct inotify_event: wd, mask, cookie, [len ->] name), whatever the source calls them
+            canon = ["wd", "mask", "cookie", "name"]
+            if len(node.target.elts) != 4:
+                raise AnalysisError("record loop of read_events no longer unpacks (wd, mask, cookie, name)")
+            return ast.Tuple([ast.Name(c, ast.Load()) for c in canon], ast.Load())
         return None
 
     def canon_term(self, t, st):
